@@ -3,7 +3,8 @@ EXPLANATION = ("Real id.NewFallbackGenerator / fallbackGenerator.New with the cl
                "and, for concurrent draws, every atomic operation a scheduling point of the symbolic scheduler.")
 ASSUMPTIONS = ["time.Now returns arbitrary non-decreasing non-negative readings (two constructor calls may see the same reading)",
                "strconv.FormatInt/FormatUint are injective per base and emit no '-' for non-negative input, so ids built as prefix-separator-number are equal iff their formatted numbers are",
-               "the muyo/sno generator (third-party) is covered by the C20.c/d scenarios only within their stated bounds"]
+               "the muyo/sno generator (third-party) is covered by the C20.c/d scenarios only within their stated bounds",
+               "C20.f: JSON (sonic) is uninterpreted with the contract Unmarshal(Marshal(v)) = v; distinctness of ids issued before a snapshot and after a restore is reduced to: the restore reproduces the snapshotted state exactly"]
 H = "id"
 # sno's "unsafe past" branch (several regressions before wallSafe is reached again) sleeps and retries: cut, outside the claim
 CUT = {"time.Sleep": "$cut"}
@@ -30,4 +31,8 @@ SCENARIOS = [
          overrides={"time.Sleep": "$cut", "github.com/muyo/sno/internal.Snotime": "verifSnotimeMono2"},
          bounds="2 goroutines (1 and 2 draws), all interleavings of the generator's atomic operations, a monotonic clock whose readings range over two adjacent time units",
          expect_obligations=["concurrent sno ids of one generator are pairwise distinct"]),
+    dict(name="C20.f restore from snapshot", entry="VerifC20f_Restore", harness=H, K=30, reach=["restored"], native=False,
+         overrides={"time.Sleep": "$cut", "github.com/muyo/sno/internal.Snotime": "verifSnotimeFive"},
+         bounds="symbolic snapshot: sequence in {2,3,40,41,45} (bounds 2..40, so incl. an exhausted pool), wallSafe 0..5, drifts 0..1; clock fixed at the snapshot's wallHi",
+         expect_obligations=["the restored generator continues with the snapshot's sequence (also when the pool was exhausted)"]),
 ]
